@@ -34,6 +34,18 @@ def fresh(prefix: str) -> str:
     return f"{prefix}!{_cnt[0]}"
 
 
+_KEEP = {}
+
+
+def tid(t):
+    """id of the simplified term; the term is kept alive so that the id is never reused"""
+    t = z3.simplify(t)
+    i = t.get_id()
+    if i not in _KEEP:
+        _KEEP[i] = t
+    return i
+
+
 def simp(t):
     return z3.simplify(t)
 
@@ -416,11 +428,12 @@ class VBytes(V):
         out = []
         for s in self.segs:
             if isinstance(s, Lit):
-                out.append(("L",) + tuple(b if isinstance(b, int) else ("t", z3.simplify(b).get_id()) for b in s.bs))
+                out.append(("L",) + tuple(b if isinstance(b, int) else ("t", tid(b)) for b in s.bs))
             else:
+                _KEEP.setdefault(s.base.get_id(), s.base)
                 out.append(("V", s.base.get_id(),
-                            s.off if isinstance(s.off, int) else z3.simplify(s.off).get_id(),
-                            s.n if isinstance(s.n, int) else z3.simplify(s.n).get_id()))
+                            s.off if isinstance(s.off, int) else tid(s.off),
+                            s.n if isinstance(s.n, int) else tid(s.n)))
         return tuple(out)
 
     def __repr__(self):
